@@ -3,8 +3,8 @@
 # properties it repaired, and restores the tree. Every one of these runs must report VIOLATION (exit 1).
 cd /repo || exit 2
 git diff --quiet || { echo "/repo dirty"; exit 2; }
-declare -A PROPS=( [956b983]="C01 C10" [cb88ef7]="C05" [7291dd1]="C05" [040007d]="C08" [20eda81]="C02" [ac2c43d]="C04 C01 C03" [2c5ad48]="C17 C03" [4f65dc5]="C14 C15" [8ca4556]="C18" [1fb55eb]="C12" [31f0f2c]="C05 C09" [68a048b]="C09 C03" [4aaeb6d]="C05 C10" )
-for c in 956b983 cb88ef7 7291dd1 040007d 20eda81 2c5ad48 4f65dc5 8ca4556 31f0f2c 68a048b 4aaeb6d; do
+declare -A PROPS=( [956b983]="C01 C10" [cb88ef7]="C05" [7291dd1]="C05" [040007d]="C08" [20eda81]="C02" [ac2c43d]="C04 C01 C03" [2c5ad48]="C17 C03" [4f65dc5]="C14 C15" [8ca4556]="C18" [1fb55eb]="C12" [31f0f2c]="C05 C09" [68a048b]="C09 C03" [4aaeb6d]="C05 C10" [2445fd6]="C13" )
+for c in 956b983 cb88ef7 7291dd1 040007d 20eda81 2c5ad48 4f65dc5 8ca4556 31f0f2c 68a048b 4aaeb6d 2445fd6; do
   git show $c | git apply -R || { echo "$c: reverse patch does not apply"; git checkout -- .; continue; }
   for p in ${PROPS[$c]}; do
     out=$(cd /verif && ./check $p --tier quick 2>&1); rc=$?
